@@ -465,3 +465,70 @@ Section Follow.
         destruct (o_look o); destruct rest; reflexivity.
   Qed.
 End Follow.
+
+(* ================================================================ the monitor accepts *)
+
+Theorem c18_moving_lib_proof : C18_moving_lib.
+Proof.
+  intros k Hsc Hcor. unfold c18_prop. apply orb_true_iff. right.
+  unfold c18_moving_thm_scope in Hsc. unfold fk_corresponds in Hcor.
+  assert (Hgen : forall r0, rooted_mode r0 (k_mode k) ->
+            filt_nu k && filt_irr k && moving_scope_b r0 (k_hist k) &&
+            forallb (fun b => memN (bid b) (k_qi k) && memN (bnum b) (k_qh k)) (k_hist k) = true ->
+            c18_follow false (c_kept (k_cfg k)) (ri r0) r0 (k_hist k) (k_qh k) (k_qi k)
+                       (mkFM [] 0 r0 false [] []) 0 [] (k_hist k) (k_obs k) = true).
+  { intros r0 Hm H. apply andb_true_iff in H as [H Hqs]. apply andb_true_iff in H as [H Hscope].
+    apply andb_true_iff in H as [Hnu Hirr]. unfold filt_nu in Hnu. apply andb_true_iff in Hnu as [Hnew Hundo].
+    unfold filt_irr in Hirr. rewrite forallb_forall in Hqs.
+    destruct (scope_parts r0 (k_hist k) Hscope) as (_ & _ & Hr0 & _).
+    apply (follow_run (k_hist k) r0 (nofail (k_cfg k)) eq_refl Hnew Hundo Hirr
+             (bridge_id _ (m_wf r0 _ Hscope) (m_par r0 _ Hscope)) (bridge_uniq _ (m_wf r0 _ Hscope)) (bridge_up _ (m_wf r0 _ Hscope))
+             Hr0 (fun y Hy => proj2 (proj2 (mb_parts r0 _ Hscope y Hy))) (fun x Hx => proj1 (proj2 (mb_parts r0 _ Hscope x Hx)))
+             (bridge_decl r0 _ Hscope) (k_qh k) (k_qi k)) with (cfgF := k_cfg k) (s := fs_init (k_mode k)) (Fin := []) (S := []).
+    - intros x Hx. specialize (Hqs x Hx). apply andb_true_iff in Hqs as [H1 H2]. apply memN_In in H1, H2. auto.
+    - reflexivity.
+    - apply inv_init; [exact Hr0 | exact (fun y Hy => proj2 (proj2 (mb_parts r0 _ Hscope y Hy)))
+                       | exact (fun x Hx => proj1 (proj2 (mb_parts r0 _ Hscope x Hx))) | exact Hm].
+    - apply ext_init. exact Hm.
+    - constructor.
+      + constructor; cbn; auto; try (intros id []). destruct Hm as [-> | ->]; reflexivity.
+      + reflexivity.
+      + intros x [].
+    - intros b Hb. exact Hb.
+    - apply before_fail_init.
+    - exact Hcor. }
+  destruct (k_mode k) as [r0|r0|] eqn:Em; [| |discriminate].
+  - cbn [root_ref]. apply (Hgen r0); [left; reflexivity | exact Hsc].
+  - cbn [root_ref]. apply (Hgen r0); [right; reflexivity | exact Hsc].
+Qed.
+
+(* the model's own run corresponds to itself *)
+Lemma look_eqb_refl l : look_eqb l l = true.
+Proof.
+  destruct l as [a1 a2 a3 a4 a5]. unfold look_eqb, optN_eqb. cbn [l_ids l_lowest l_canon l_allat l_byhash].
+  repeat (apply andb_true_iff; split).
+  - apply eqb_list_refl.
+  - apply (opt_eqb_iff N.eqb N.eqb_eq). reflexivity.
+  - apply eqb_list_refl.
+  - apply (list_eqb_eq _ (opt_eqb_iff eqb_list eqb_list_eq)). reflexivity.
+  - apply (list_eqb_eq _ Bool.eqb_true_iff). reflexivity.
+Qed.
+
+Lemma head_eqb_refl x : head_eqb x x = true.
+Proof. destruct x as [[r n]|]; cbn; [|reflexivity]. rewrite (proj2 (ref_eqb_iff r r) eq_refl), N.eqb_refl. reflexivity. Qed.
+
+Lemma model_obs_matches cfg qh qi : forall h s, model_matches cfg s h (model_obs cfg s h qh qi) qh qi = true.
+Proof.
+  induction h as [|b rest IH]; intros s; [reflexivity|]. cbn [model_obs model_matches].
+  destruct (fk_step cfg s b) as [[s' evs] r] eqn:Hstep. cbn [o_events o_result o_head o_headnum o_look].
+  rewrite (proj2 (list_eqb_eq _ event_eqb_iff evs evs) eq_refl), (proj2 (result_eqb_iff r r) eq_refl),
+    head_eqb_refl, N.eqb_refl, look_eqb_refl. cbn [andb].
+  destruct r; try reflexivity. apply IH.
+Qed.
+
+Theorem c18_moving_own_run_proof : C18_moving_own_run.
+Proof.
+  intros cfg m h qh qi Hsc.
+  assert (Hcor : fk_corresponds (model_case cfg m h qh qi) = true) by apply model_obs_matches.
+  split; [exact Hcor | apply c18_moving_lib_proof; assumption].
+Qed.
